@@ -968,6 +968,90 @@ impl StunClient {
     }
 }
 
+#[cfg(feature = "verif")]
+impl StunClient {
+    /// Read-only projection of the client state, for verification harnesses.
+    pub fn verif_snapshot(&self) -> crate::verif::VerifSnapshot {
+        use crate::verif::*;
+        let mut transactions: Vec<VerifTransaction> = self
+            .transactions
+            .iter()
+            .map(|(id, t)| {
+                let (latest, last_rto, calc_rtt, calc_rm, calc_rc, calc_last_rm) =
+                    t.rtos.verif_state();
+                VerifTransaction {
+                    id: *id,
+                    sample: t.instant,
+                    packet: t.packet.as_ref().to_vec(),
+                    latest,
+                    last_rto,
+                    calc_rtt,
+                    calc_rm,
+                    calc_rc,
+                    calc_last_rm,
+                }
+            })
+            .collect();
+        transactions.sort_by(|a, b| a.id.as_bytes().cmp(b.id.as_bytes()));
+        let mut timeouts: Vec<VerifTimeout> = self
+            .timeouts
+            .verif_entries()
+            .into_iter()
+            .map(|(id, instant, timeout)| VerifTimeout {
+                id,
+                instant,
+                timeout,
+            })
+            .collect();
+        timeouts.sort_by(|a, b| {
+            (a.instant + a.timeout, a.id.as_bytes()).cmp(&(b.instant + b.timeout, b.id.as_bytes()))
+        });
+        let (reliable_timeout, rtt, last_request) = match &self.rtt {
+            StunRttCalcuator::Reliable(t) => (Some(*t), None, None),
+            StunRttCalcuator::Unreliable(h) => {
+                let (rto, srtt, rttvar, granularity, configured_rto) = h.rtt.verif_state();
+                (
+                    None,
+                    Some(VerifRtt {
+                        rto,
+                        srtt,
+                        rttvar,
+                        granularity,
+                        configured_rto,
+                        rm: h.rm,
+                        rc: h.rc,
+                    }),
+                    h.last_request,
+                )
+            }
+        };
+        let mechanism = match &self.mechanism {
+            None => VerifMechanism::None,
+            Some(CredentialMechanismClient::ShortTerm(m)) => {
+                let (integrity, mut marked) = m.verif_state();
+                marked.sort_by(|a, b| a.as_bytes().cmp(b.as_bytes()));
+                VerifMechanism::ShortTerm { integrity, marked }
+            }
+            Some(CredentialMechanismClient::LongTerm(m)) => {
+                let mut lt = m.verif_state();
+                lt.marked.sort_by(|a, b| a.as_bytes().cmp(b.as_bytes()));
+                VerifMechanism::LongTerm(lt)
+            }
+        };
+        VerifSnapshot {
+            transactions,
+            timeouts,
+            reliable_timeout,
+            rtt,
+            last_request,
+            mechanism,
+            use_fingerprint: self.use_fingerprint,
+            max_transactions: self.max_transactions,
+            pending_events: self.transaction_events.verif_len(),
+        }
+    }
+}
+
 fn process_integrity_error(
     error: IntegrityError,
     transaction_id: &TransactionId,
